@@ -2,8 +2,10 @@ package main
 
 import (
 	"errors"
+	"runtime"
 	"sync"
 	"sync/atomic"
+	"time"
 )
 
 // monSecondary is the harness's secondary store: a map guarded by a mutex that
@@ -45,6 +47,24 @@ type monSecondary[K comparable, V any] struct {
 	setGate chan struct{}
 	inSet   atomic.Int64
 	stalled map[K]int // keys whose Set call is waiting on setGate (the caller holds that key's shard read lock)
+	// delGate, when non-nil, is received from before each Delete is applied (a slow secondary Delete)
+	delGate chan struct{}
+	inDel   atomic.Int64
+	// slow, when set, makes every call yield / sleep a few microseconds before it is applied
+	slow atomic.Bool
+}
+
+// dawdle widens the window between a tier crossing's two halves when the store is "slow".
+func (s *monSecondary[K, V]) dawdle() {
+	if !s.slow.Load() {
+		return
+	}
+	switch n := s.gets.Load() + s.sets.Load() + s.deletes.Load(); n % 4 {
+	case 0:
+		runtime.Gosched()
+	case 1:
+		time.Sleep(time.Duration(5+n%40) * time.Microsecond)
+	}
 }
 
 var errSecondary = errors.New("injected secondary failure")
@@ -56,6 +76,7 @@ func newMonSecondary[K comparable, V any](keepLog bool) *monSecondary[K, V] {
 func (s *monSecondary[K, V]) Get(key K) (value V, cost int64, expire int64, ok bool, err error) {
 	t0 := tick()
 	s.gets.Add(1)
+	s.dawdle()
 	s.mu.Lock()
 	s.nCalls++
 	if s.fail != nil && s.fail("get", s.nCalls) {
@@ -85,6 +106,7 @@ func (s *monSecondary[K, V]) Set(key K, value V, cost int64, expire int64) error
 		s.stalled[key]++
 	}
 	s.mu.Unlock()
+	s.dawdle()
 	if g != nil {
 		<-g
 		s.mu.Lock()
@@ -111,6 +133,15 @@ func (s *monSecondary[K, V]) Set(key K, value V, cost int64, expire int64) error
 func (s *monSecondary[K, V]) Delete(key K) error {
 	t0 := tick()
 	s.deletes.Add(1)
+	s.dawdle()
+	s.mu.Lock()
+	g := s.delGate
+	s.mu.Unlock()
+	if g != nil {
+		s.inDel.Add(1)
+		<-g
+		s.inDel.Add(-1)
+	}
 	s.mu.Lock()
 	defer s.mu.Unlock()
 	s.nCalls++
